@@ -4,7 +4,7 @@ import Std.Data.HashSet
 /-!
 Trace acceptor for C08 / C09 (DelayQueue share).  Producer of the lines: harness/delayq/main.go.
 
-A case is `new cap=<c>`, one line per call of the concurrent scenario (timed history: `sinv`/`sres`
+A case is `new cap=<c> [elem=val]`, one line per call of the concurrent scenario (timed history: `sinv`/`sres`
 global sequence numbers, `tinv`/`tres` monotonic µs, `dl` the element's absolute deadline in the same
 unit, `rem` the returned element's `Delay()` right after the return, `len` the hook-observed length)
 and an `end` line (final length, capacity-conservation probe).
@@ -322,7 +322,7 @@ def checker (model : Bool) : Checker where
   step st op obs :=
     let ws := words op
     match ws with
-    | ["new", capTok] =>
+    | ["new", capTok] | ["new", capTok, "elem=val"] =>   -- elem=val: the harness instantiates T with a value type
       let want : Option Nat := if capTok.startsWith "cap=" then
           ((capTok.drop 4).toString.toInt?).map (fun i => if i < 0 then 0 else i.toNat) else none
       match want with
